@@ -77,6 +77,11 @@ TNext ==
        CASE e.ev = "new" -> TNew(e)
          [] e.ev = "rec" -> TRec(e)
          [] e.ev = "snapshot" -> TSnapshot(e)
+         [] e.ev = "clear" ->     \* clear() of both recorders: the logged projection must be the empty one
+              /\ IF /\ e.post.tracked = <<>> /\ e.post.ovf = 0 /\ e.post.agg = Zero
+                    /\ GettersOk(e.post.getters, {}, AllZero, 0) /\ AggGettersOk(e.post.agg_getters, Zero)
+                 THEN TRUE ELSE Bad
+              /\ ClearAll(e.w)
          [] e.ev = "merge" -> TMerge(e)
          [] e.ev = "report_file" ->   \* Reporter::report(): the persisted file holds exactly the merged per-address sums
               /\ IF e.readable /\ e.rows = rep /\ (e.expect_file => e.files = 1) /\ (~e.expect_file => e.files = 0) THEN TRUE ELSE Bad
